@@ -158,6 +158,50 @@ theorem okI_update {G : Dag} (hw : WF G) {new : Nat} {olds : List Nat} (pub : Li
   · exact Or.inl ⟨hne, rfl⟩
   · exact Or.inr (below_of_anc_ne hw (h o ho) hne)
 
+/-- the two ways `resolvePlan` succeeds -/
+theorem resolvePlan_cases {G : Dag} {heads arg : List Nat} {t : Nat} {olds : List Nat}
+    (h : resolvePlan G heads arg = some (t, olds)) :
+    (filterHeads G heads = [t] ∧ olds = ancestorHeads G heads) ∨
+    (arg = [t] ∧ t < G.length ∧ t ∉ heads ∧ sameSet (parents G t) (filterHeads G heads) = true ∧
+      olds = ancestorHeads G heads ++ parents G t) := by
+  unfold resolvePlan at h
+  split at h
+  · rename_i hd hf
+    simp only [Option.some.injEq, Prod.mk.injEq] at h
+    obtain ⟨rfl, rfl⟩ := h
+    exact Or.inl ⟨hf, rfl⟩
+  · split at h
+    · rename_i new
+      split at h
+      · rename_i hc
+        simp only [Bool.and_eq_true, Bool.not_eq_true', decide_eq_true_eq] at hc
+        simp only [Option.some.injEq, Prod.mk.injEq] at h
+        obtain ⟨rfl, rfl⟩ := h
+        refine Or.inr ⟨rfl, hc.1.1, ?_, hc.2, rfl⟩
+        intro hm
+        have hc' := List.contains_iff_mem.mpr hm
+        have := hc.1.2
+        simp only [hc'] at this
+        exact absurd this (by simp)
+      · simp at h
+    · simp at h
+
+theorem resolvePlan_anc {G : Dag} (hw : WF G) {heads arg : List Nat} {t : Nat} {olds : List Nat}
+    (h : resolvePlan G heads arg = some (t, olds)) : ∀ o ∈ olds, Anc G o t := by
+  intro o ho
+  rcases resolvePlan_cases h with ⟨hf, rfl⟩ | ⟨_, _, _, hss, rfl⟩
+  · obtain ⟨hoh, _⟩ := mem_ancestorHeads.mp ho
+    obtain ⟨f, hfm, hfa⟩ := filtered_above hw hoh
+    rw [hf] at hfm
+    simp only [List.mem_singleton] at hfm
+    subst hfm
+    exact hfa
+  · rcases List.mem_append.mp ho with ho | ho
+    · obtain ⟨hoh, _⟩ := mem_ancestorHeads.mp ho
+      obtain ⟨f, hfm, hfa⟩ := filtered_above hw hoh
+      exact Anc.step (mem_of_sameSet_left hss hfm) hfa
+    · exact Anc.step ho (Anc.refl o)
+
 theorem expand_ok {G : Dag} (hw : WF G) (c : OInstr) (arg heads : List Nat) (loc loc' : Nat)
     (is : List (Instr Nat OInstr)) (pub : List Nat)
     (h : expand true G c arg heads loc = some (loc', is)) : ∀ i ∈ is, OkI (le G) pub i := by
@@ -176,33 +220,11 @@ theorem expand_ok {G : Dag} (hw : WF G) (c : OInstr) (arg heads : List Nat) (loc
         simp only [List.mem_cons, List.not_mem_nil, or_false] at hi
         rcases hi with rfl | rfl <;> trivial
       · split at h
-        · rename_i hd hf
+        · simp at h
+        · rename_i t olds hpl
           simp only [Option.some.injEq, Prod.mk.injEq] at h
           obtain ⟨_, rfl⟩ := h
-          apply okI_update hw
-          intro o ho
-          obtain ⟨hoh, _⟩ := mem_ancestorHeads.mp ho
-          obtain ⟨f, hfm, hfa⟩ := filtered_above hw hoh
-          rw [hf] at hfm
-          simp only [List.mem_singleton] at hfm
-          subst hfm
-          exact hfa
-        · split at h
-          · rename_i new
-            split at h
-            · rename_i hc
-              simp only [Bool.and_eq_true] at hc
-              simp only [Option.some.injEq, Prod.mk.injEq] at h
-              obtain ⟨_, rfl⟩ := h
-              apply okI_update hw
-              intro o ho
-              rcases List.mem_append.mp ho with ho | ho
-              · obtain ⟨hoh, _⟩ := mem_ancestorHeads.mp ho
-                obtain ⟨f, hfm, hfa⟩ := filtered_above hw hoh
-                exact Anc.step (mem_of_sameSet_left hc.2 hfm) hfa
-              · exact Anc.step ho (Anc.refl o)
-            · simp at h
-          · simp at h
+          exact okI_update hw pub (resolvePlan_anc hw hpl)
 
 /-- the operations a process can start -/
 inductive ValidEvent (G : Dag) : OEvent → Prop
